@@ -121,10 +121,10 @@ def state(field, rng, amp=1 / 32.0):
 
 
 MATERIALS = {
-    "svk": lambda: fem.constitution.SaintVenantKirchhoff(mu=1.0, lmbda=2.0) if hasattr(fem.constitution, "SaintVenantKirchhoff")
-    else fem.Hyperelastic(fem.saint_venant_kirchhoff, mu=1.0, lmbda=2.0),
-    "neohooke": lambda: fem.NeoHooke(mu=1.0, bulk=5.0),
-    "neohookecompressible": lambda: fem.NeoHookeCompressible(mu=1.0, lmbda=2.0),
+    "svk": lambda: fem.constitution.SaintVenantKirchhoff(mu=1.25, lmbda=2.0) if hasattr(fem.constitution, "SaintVenantKirchhoff")
+    else fem.Hyperelastic(fem.saint_venant_kirchhoff, mu=1.25, lmbda=2.0),
+    "neohooke": lambda: fem.NeoHooke(mu=1.25, bulk=5.0),
+    "neohookecompressible": lambda: fem.NeoHookeCompressible(mu=1.25, lmbda=2.0),
     "linearelastic": lambda: fem.LinearElastic(E=2.0, nu=0.25),
     "mooneyrivlin-ad": lambda: fem.Hyperelastic(fem.mooney_rivlin, C10=0.3, C01=0.2) & fem.Volumetric(bulk=5.0),
 }
@@ -173,10 +173,10 @@ def cases(tier, rng):
         return state(f, rng)
 
     for kind in ("3d", "planestrain", "axisymmetric"):
-        yield "solid-mixed-%s-threefield" % kind, lambda kind=kind: (lambda f: (fem.SolidBody(fem.ThreeFieldVariation(fem.NeoHooke(mu=1.0, bulk=5.0)), f), f, True, False))(mixed(kind))
-    yield "solid-mixed-3d-nearlyincompressible-umat", lambda: (lambda f: (fem.SolidBody(fem.NearlyIncompressible(fem.NeoHooke(mu=1.0), bulk=20.0), f), f, True, False))(mixed("3d"))
-    yield "nearlyincompressible-hex", lambda: (lambda f: (fem.SolidBodyNearlyIncompressible(fem.NeoHooke(mu=1.0), f, bulk=20.0), f, True, True))(hexfield())
-    yield "nearlyincompressible-axisymmetric", lambda: (lambda f: (fem.SolidBodyNearlyIncompressible(fem.NeoHooke(mu=1.0), f, bulk=20.0), f, True, True))(quadfield(fem.FieldAxisymmetric, 0.5))
+        yield "solid-mixed-%s-threefield" % kind, lambda kind=kind: (lambda f: (fem.SolidBody(fem.ThreeFieldVariation(fem.NeoHooke(mu=1.25, bulk=5.0)), f), f, True, False))(mixed(kind))
+    yield "solid-mixed-3d-nearlyincompressible-umat", lambda: (lambda f: (fem.SolidBody(fem.NearlyIncompressible(fem.NeoHooke(mu=1.25), bulk=20.0), f), f, True, False))(mixed("3d"))
+    yield "nearlyincompressible-hex", lambda: (lambda f: (fem.SolidBodyNearlyIncompressible(fem.NeoHooke(mu=1.25), f, bulk=20.0), f, True, True))(hexfield())
+    yield "nearlyincompressible-axisymmetric", lambda: (lambda f: (fem.SolidBodyNearlyIncompressible(fem.NeoHooke(mu=1.25), f, bulk=20.0), f, True, True))(quadfield(fem.FieldAxisymmetric, 0.5))
 
     def pressure(kind):
         if kind == "hex":
@@ -256,6 +256,49 @@ def cases(tier, rng):
 
     yield "formitem-linear-elasticity", formitem
 
+    def history(kind):
+        """bodies whose material carries state: one increment is assembled and COMMITTED, then the state moves on, so that the stored
+        state differs from the trial state of the current evaluation (vector and matrix must both refer to the stored one)"""
+        f = hexfield()
+        first = getx(f).copy()
+        if kind == "viscoelastic":
+            umat = fem.Hyperelastic(fem.finite_strain_viscoelastic, mu=1.25, eta=2.0, dtime=0.5, nstatevars=6) & fem.Hyperelastic(
+                fem.neo_hooke, mu=0.5) & fem.Volumetric(bulk=5.0) if False else fem.Hyperelastic(
+                fem.finite_strain_viscoelastic, mu=1.25, eta=2.0, dtime=0.5, nstatevars=6)
+            sv0 = np.zeros((6, *f.region.dV.shape))
+            sv0[[0, 3, 5]] = 1.0
+            item = fem.SolidBody(umat, f, statevars=sv0)
+            sym_ = False
+        elif kind == "plastic":
+            umat = fem.MaterialStrain(material=fem.constitution.linear_elastic_plastic_isotropic_hardening, λ=2.0, μ=1.5, σy=0.02, K=0.25,
+                                      statevars=(1, (3, 3)))
+            item = fem.SolidBody(umat, f)
+            sym_ = False
+        else:
+            item = fem.SolidBody(fem.OgdenRoxburgh(fem.NeoHooke(mu=1.25, bulk=5.0), r=3.0, m=0.75, beta=0.25), f)
+            sym_ = False
+        # a first, large and homogeneous increment (stretch 1.3 along x) is committed: every point is far on the loading side, so the
+        # small lattice state and its stencil stay on ONE branch (unloading for the softening model, reverse plastic flow for plasticity)
+        big = np.zeros_like(f[0].values)
+        big[:, 0] = 0.3 * f.region.mesh.points[:, 0]
+        f[0].values[:] = big
+        item.assemble.vector(f)
+        item.results.update_statevars()
+        setx(f, first)
+        item.assemble.vector(f)
+        return item, f, sym_, False
+
+    for kind in ("viscoelastic", "plastic", "ogdenroxburgh"):
+        yield "solid-history-" + kind, lambda kind=kind: history(kind)
+
+    def pointload_axi():
+        f = quadfield(fem.FieldAxisymmetric, 0.5)
+        pts = [2, 5, 8]
+        load = fem.PointLoad(f, pts, values=np.array([[0.5, -0.25]] * 3), axisymmetric=True)
+        return load, f, True, False
+
+    yield "pointload-axisymmetric-ring", pointload_axi
+
     def formitem_kwargs(how):
         """keyword arguments held by the ITEM and changed through item.update (ramp item given by position or by name)"""
         f = hexfield()
@@ -301,7 +344,7 @@ def cases(tier, rng):
     def formitem_threefield():
         """the documented mixed-field pattern: (u, p, J) weak forms written with the expression API"""
         f = mixed("3d")
-        umat = fem.ThreeFieldVariation(fem.NeoHooke(mu=1.0, bulk=5.0))
+        umat = fem.ThreeFieldVariation(fem.NeoHooke(mu=1.25, bulk=5.0))
         from felupe.math import ddot, grad
 
         @fem.Form(v=f)
@@ -360,7 +403,7 @@ def c01(out, a):
         if out.want(rid):
             m = perturb(fem.Cube(n=2), rng)
             f = state(fem.FieldContainer([fem.Field(fem.RegionHexahedron(m), dim=3)]), rng)
-            item = fem.SolidBody(fem.NeoHooke(mu=1.0, bulk=5.0), f, multiplier=mult)
+            item = fem.SolidBody(fem.NeoHooke(mu=1.25, bulk=5.0), f, multiplier=mult)
             r_items = fun_items([item], f)
             K_items = jac_items([item], f).toarray()
             out.write({"id": rid, "kind": "multiplier", "nt": mult is not None, "mult": int(mult) if mult is not None else 1,
@@ -509,9 +552,9 @@ def c14(out, a):
                 f = fem.FieldContainer([fem.FieldPlaneStrain(fem.RegionQuad(m), dim=2)])
                 V = 2.0
             if kind == "hex-ni":
-                item = fem.SolidBodyNearlyIncompressible(fem.NeoHooke(mu=1.0), f, bulk=20.0, density=rho)
+                item = fem.SolidBodyNearlyIncompressible(fem.NeoHooke(mu=1.25), f, bulk=20.0, density=rho)
             else:
-                item = fem.SolidBody(fem.NeoHooke(mu=1.0, bulk=2.0), f, density=rho)
+                item = fem.SolidBody(fem.NeoHooke(mu=1.25, bulk=2.0), f, density=rho)
             M = item.assemble.mass().toarray()
             n = M.shape[0]
             fd = f[0].dim
